@@ -14,7 +14,8 @@ import contextlib
 from pybufrkit.errors import PyBufrKitError, UnknownDescriptor
 from pybufrkit.coder import Coder, CoderState, BSRModifier, BITMAP_INDICATOR
 from pybufrkit.tables import TableGroupKey, TableGroupCacheManager
-from pybufrkit.descriptors import Descriptor, ElementDescriptor
+from pybufrkit.descriptors import (Descriptor, ElementDescriptor,
+                                   AssociatedDescriptor, SkippedLocalDescriptor)
 
 __all__ = ['loads_compiled_template', 'TemplateCompiler', 'CompiledTemplateManager', 'process_compiled_template']
 
@@ -84,6 +85,9 @@ class MethodCall(Statement):
         if len(self.args) > 0 and isinstance(self.args[0], Descriptor):
             d['args'] = (self.args[0].id,) + self.args[1:]
             d['with_descriptor'] = True
+            # Pseudo descriptors are not in any table, they must be re-created on load
+            if isinstance(self.args[0], (AssociatedDescriptor, SkippedLocalDescriptor)):
+                d['pseudo_descriptor'] = [type(self.args[0]).__name__, self.args[0].nbits]
         else:
             d['args'] = self.args
             d['with_descriptor'] = False
@@ -478,7 +482,11 @@ def load_state_method_call_from_dict(table_group, d):
 
 def load_method_call_from_dict(method_type, table_group, d):
     if d.get('with_descriptor', False):
-        descriptor = table_group.lookup(d['args'][0])
+        if d.get('pseudo_descriptor'):
+            descriptor_type, nbits = d['pseudo_descriptor']
+            descriptor = PSEUDO_DESCRIPTOR_TYPES[descriptor_type](d['args'][0], nbits)
+        else:
+            descriptor = table_group.lookup(d['args'][0])
         args = tuple([descriptor] + d['args'][1:])
     else:
         args = tuple(d['args'])
@@ -493,6 +501,11 @@ def load_method_call_from_dict(method_type, table_group, d):
                        args=args,
                        state_properties=state_properties)
 
+
+PSEUDO_DESCRIPTOR_TYPES = {
+    'AssociatedDescriptor': AssociatedDescriptor,
+    'SkippedLocalDescriptor': SkippedLocalDescriptor,
+}
 
 STATEMENT_LOAD_FUNCS = {
     'Loop': load_loop_from_dict,
